@@ -57,7 +57,12 @@ def model_check(ctx, descs):
     rc = ctx.tlc("Dataflow", "MC_DF", "MC_DF.cfg", files=files_c, timeout=1200, workers=4, coverage=True, count=False)
     if not rc.ok:
         return rc
-    r.coverage = rc.coverage
+    import os as _os
+    from vh import tlc as _tlc
+    text = open(_os.path.join(_tlc.SPECS, "Dataflow", "Dataflow.tla")).read()
+    hits = _tlc.definition_hits(rc.stdout, "Dataflow", text, ["RoundStep", "Scatter", "GatherRecv", "DotRecv", "ExecRound", "JobDone",
+                                                               "JobFail", "Emit", "XRecv", "ExecEnd", "Deploy", "SchedConn", "CloseAll"])
+    r.coverage = {k: [v, v] for k, v in hits.items()}
     files["MC_DF.cfg"] = dt.cfg(liveness=True, invariants=[])
     r2 = ctx.tlc("Dataflow", "MC_DF", "MC_DF.cfg", files=files, timeout=2400, workers=4, count=False)
     if not r2.ok:
@@ -81,7 +86,9 @@ def run_all(ctx, focus):
         which = r.trace[-1]["state"].get("net") if r.trace else None
         ctx.require(False, "Dataflow model violates %s %s on generated network %s (%s)" % (
             r.error, r.violated, which, descs[which - 1]["name"] if which else "?"))
-    ctx.require_coverage(r, ["RoundStep", "Scatter", "GatherRecv", "ExecRound", "JobDone", "JobFail", "Emit", "XRecv", "ExecEnd"])
+    ctx.require_coverage(r, ["RoundStep", "Scatter", "GatherRecv", "DotRecv", "ExecRound", "JobDone", "JobFail", "Emit", "XRecv", "ExecEnd",
+                             "Deploy", "SchedConn"])
+    ctx.extra["action_evaluations"] = {k: v[1] for k, v in r.coverage.items()}
     # permissive interleaving (no priority of pure continuations), safety only, on the small networks (thorough)
     if not ctx.quick:
         small = [d for d in descs if len(d["steps"]) <= 4 and "dead-end" not in d["classes"]][:12]
